@@ -30,7 +30,18 @@ ChainOK(Yd, n, sq) ==
 \* all prefixes (lengths 0..d) and the table of their sums (computed once per tensor)
 MaxN(n) == CHOOSE x \in {n[k] : k \in 1..Len(n)} : \A k \in 1..Len(n) : n[k] <= x
 PrefixesOf(n) == UNION { { pre \in [1..k -> 1..MaxN(n)] : \A j \in 1..k : pre[j] <= n[j] } : k \in 0..Len(n) }
-STable(Yd, n, sq) == [pre \in PrefixesOf(n) |-> S(Yd, n, pre, sq)]
+PrefK(n, k) == { pre \in [1..k -> 1..MaxN(n)] : \A j \in 1..k : pre[j] <= n[j] }
+RECURSIVE FlatIdx(_, _, _)
+FlatIdx(idx, n, k) == IF k > Len(n) THEN 0 ELSE (idx[k] - 1) * Prod(n, k + 1) + FlatIdx(idx, n, k + 1)
+\* level-by-level computation (each level is summed from the next one): linear in the tensor size
+RECURSIVE Levels(_, _, _, _)
+Levels(Yd, n, k, sq) ==
+  IF k = Len(n) THEN << [pre \in PrefK(n, k) |-> Wt(Yd[FlatIdx(pre, n, 1) + 1], sq)] >>
+  ELSE LET rest == Levels(Yd, n, k + 1, sq)
+           nxt == rest[1]
+       IN << [pre \in PrefK(n, k) |-> LET F(i) == nxt[Append(pre, i)] IN SumTo(F, n[k + 1])] >> \o rest
+STable(Yd, n, sq) == LET L == Levels(Yd, n, 0, sq) IN [pre \in PrefixesOf(n) |-> L[Len(pre) + 1][pre]]
+STableSlow(Yd, n, sq) == [pre \in PrefixesOf(n) |-> S(Yd, n, pre, sq)]
 CondMatchesT(tab, n, pre, num, den) ==
   /\ Len(num) = n[Len(pre) + 1]
   /\ tab[pre] > 0
